@@ -10,11 +10,15 @@ import (
 	"sort"
 	"strings"
 
+	ci "github.com/TheManticoreProject/Manticore/network/smb/smb_v10/message/commands/command_interface"
+
 	"verif/mon"
 	"verif/smbgen"
 )
 
 var r *mon.Run
+
+var reused = map[string]ci.CommandInterface{}
 
 type slot struct {
 	leaf   smbgen.IntLeaf
@@ -31,25 +35,7 @@ func roundTrip(s smbgen.Struct, rels []smbgen.Relation, mode smbgen.Mode, iter i
 	rng := r.Rand(fmt.Sprintf("rt|%s|%d|%d", s.Name, mode, iter))
 	c := s.New()
 	smbgen.Fill(c, rels, rng, mode, maxLen)
-	// alignment pads are 0 or 1 byte depending on the position of what follows: take the
-	// length (0 first, then 1) under which the structure decodes its own encoding
-	if pads := smbgen.PadFields(rels); len(pads) > 0 {
-		for n := 0; n < 2; n++ {
-			for _, pf := range pads {
-				reflect.ValueOf(c).Elem().FieldByName(pf).SetBytes(make([]byte, n))
-			}
-			b, err, pan, _, _ := marshal(c)
-			if pan || err != nil {
-				continue
-			}
-			d := s.New()
-			var uerr error
-			pan, _, _ = mon.Guard(func() { _, uerr = d.Unmarshal(b) })
-			if !pan && uerr == nil && reflect.ValueOf(d).Elem().FieldByName(pads[0]).Len() == n {
-				break
-			}
-		}
-	}
+	smbgen.AlignPads(c, rels)
 	cs := func(extra map[string]any) map[string]any {
 		m := map[string]any{"struct": s.Name, "mode": smbgen.ModeNames[mode], "iter": iter, "fields": fmt.Sprintf("%+v", reflect.ValueOf(c).Elem().Interface())}
 		for k, v := range extra {
@@ -59,6 +45,25 @@ func roundTrip(s smbgen.Struct, rels []smbgen.Relation, mode smbgen.Mode, iter i
 	}
 	b1, err, pan, pv, st := marshal(c)
 	r.Eval(1)
+	// the same assignment on a long-lived object that has encoded and decoded other values
+	// before must encode to the same bytes (no state carried over between calls)
+	if !pan && err == nil {
+		ro, ok := reused[s.Name]
+		if !ok {
+			ro = s.New()
+			reused[s.Name] = ro
+		}
+		smbgen.Fill(ro, rels, r.Rand(fmt.Sprintf("rt|%s|%d|%d", s.Name, mode, iter)), mode, maxLen)
+		smbgen.AlignPads(ro, rels)
+		br, errR, panR, _, _ := marshal(ro)
+		r.Eval(1)
+		if panR || errR != nil || !bytes.Equal(br, b1) {
+			r.Violation(s.Name+":reuse-stale", fmt.Sprintf("a reused %s object given the same field values encodes differently from a fresh one (%d vs %d bytes, err %v)", s.Name, len(br), len(b1), errR), cs(map[string]any{"fresh_wire": mon.FullHex(b1), "reused_wire": mon.FullHex(br)}))
+		}
+		if iter%2 == 1 {
+			mon.Guard(func() { ro.Unmarshal(b1) })
+		}
+	}
 	if pan {
 		r.Violation(s.Name+":marshal-panic:"+mon.PanicClass(pv), fmt.Sprintf("Marshal panicked: %v at %s", pv, mon.TopLibFrame(st)), cs(nil))
 		return
@@ -174,6 +179,68 @@ func slotProbe(s smbgen.Struct, rels []smbgen.Relation) {
 		slots = append(slots, slot{leaf: lf, lo: lo, hi: hi, inData: lo >= dataStart})
 		r.Nontrivial("slot|" + s.Name + "|" + lf.Path)
 	}
+	// byte coverage of the parameter block: every byte after the AndX words must change when
+	// some field changes, otherwise it belongs to no field's slot (a field wider on the wire
+	// than its type, or stray bytes between fields)
+	covered := map[int]bool{}
+	v := reflect.ValueOf(c).Elem()
+	for i := 0; i < s.Type.NumField(); i++ {
+		sf := s.Type.Field(i)
+		if !sf.IsExported() || (sf.Anonymous && sf.Name == "Command") {
+			continue
+		}
+		saved := reflect.New(sf.Type).Elem()
+		saved.Set(v.Field(i))
+		if sf.Type.Kind() == reflect.Slice { // deep copy before perturbing
+			cp := reflect.MakeSlice(sf.Type, v.Field(i).Len(), v.Field(i).Len())
+			reflect.Copy(cp, v.Field(i))
+			saved.Set(cp)
+		}
+		perturb(v.Field(i))
+		b, err, pan, _, _ := marshal(c)
+		v.Field(i).Set(saved)
+		if pan || err != nil || len(b) != len(base) {
+			continue
+		}
+		for k := range b {
+			if b[k] != base[k] {
+				covered[k] = true
+			}
+		}
+	}
+	first := 1
+	if c.IsAndX() {
+		first = 5
+	}
+	var dead []int
+	for k := first; k < 1+len(params); k++ {
+		if !covered[k] {
+			dead = append(dead, k)
+		}
+	}
+	r.Eval(1)
+	// bytes legitimately insensitive: count fields that Marshal recomputes from the buffer they
+	// describe, and the single pad byte that completes an odd-length parameter stream to a word
+	allowed := 0
+	for _, lf := range leaves {
+		if counts[lf.Top] {
+			responsive := false
+			for _, sl := range slots {
+				if sl.leaf.Path == lf.Path {
+					responsive = true
+				}
+			}
+			if !responsive {
+				allowed += lf.Width
+			}
+		}
+	}
+	if (len(params)-(first-1)-len(dead)+allowed)%2 == 1 {
+		allowed++
+	}
+	if len(dead) > allowed {
+		r.Violation(s.Name+":param-bytes-in-no-slot", fmt.Sprintf("parameter-block bytes at wire offsets %v change with no field: they lie in no field's slot (a field wider on the wire than its type, or stray bytes)", dead), map[string]any{"struct": s.Name, "base_wire": mon.FullHex(base)})
+	}
 	// disjointness and declared order within each block
 	for i := 0; i < len(slots); i++ {
 		for j := i + 1; j < len(slots); j++ {
@@ -191,6 +258,32 @@ func slotProbe(s smbgen.Struct, rels []smbgen.Relation) {
 			desc = append(desc, fmt.Sprintf("%s@[%d,%d)", sl.leaf.Path, sl.lo, sl.hi))
 		}
 		r.Sample(map[string]any{"struct": s.Name, "slots": desc})
+	}
+}
+
+// perturb complements every integer leaf below v (lengths of slices and strings unchanged).
+func perturb(v reflect.Value) {
+	switch v.Kind() {
+	case reflect.Uint8, reflect.Uint16, reflect.Uint32, reflect.Uint64:
+		v.SetUint(^v.Uint() & (1<<uint(v.Type().Bits()) - 1 | 1<<63>>uint(64-v.Type().Bits())))
+	case reflect.Int8, reflect.Int16, reflect.Int32, reflect.Int64:
+		v.SetInt(^v.Int())
+	case reflect.Struct:
+		if v.Type().Name() == "SMB_DATE" {
+			v.FieldByName("Year").SetUint(1980 + (v.FieldByName("Year").Uint() - 1980) ^ 0x7F)
+			v.FieldByName("Month").SetUint(v.FieldByName("Month").Uint() ^ 0xF)
+			v.FieldByName("Day").SetUint(v.FieldByName("Day").Uint() ^ 0x1F)
+			return
+		}
+		for i := 0; i < v.NumField(); i++ {
+			if v.Type().Field(i).IsExported() {
+				perturb(v.Field(i))
+			}
+		}
+	case reflect.Slice, reflect.Array:
+		for i := 0; i < v.Len(); i++ {
+			perturb(v.Index(i))
+		}
 	}
 }
 
